@@ -28,7 +28,7 @@ CHECKS["C03"] = {
     "level": "model_checking",
     "design_ref": "DESIGN.md section 4 C03, Appendix B/G",
     "technique": "TLA+ encoding semantics (CapnpSem.Value) + TLC-enumerated messages from a slot-driven boundary-alphabet generator (EncGen); spec->code replay: the real accessors must return the tree TLC computes",
-    "text": "Every reachable state of EncGen (a message built by assigning, to each reachable pointer slot in turn, each word of an alphabet derived from the case analysis of the pointer-resolution spec: all pointer kinds x boundary offsets x boundary sizes, far/double-far pads, composite tags) is read through the public accessors in 4 presentations and compared node by node with CapnpSem.Value; where the spec value is Err the implementation is free. Includes mixed-width data reads, beyond-section defaults and both directions of the list upgrade rule.",
+    "text": "Every reachable state of EncGen (a message built by assigning, to each reachable pointer slot in turn, each word of an alphabet derived from the case analysis of the pointer-resolution spec: all pointer kinds x boundary offsets x boundary sizes, far/double-far pads, composite tags) is read through the public accessors in 4 presentations and compared node by node with CapnpSem.Value; where the spec value is Err the implementation is free. Includes mixed-width data reads, beyond-section defaults, reads wider than / straddling the end of a (sub-word) data section, and both directions of the list upgrade rule.",
     "note": "Bounded: <= 3 segments of <= 5 words, <= 3-4 assigned pointer slots, lists <= 64 elements. Trusted: TLC, CapnpSem as a reading of encoding.html (generator and decoder are cross-checked by FillPreserves), the walker's JSON rendering.",
 }
 CHECKS["C01"] = {
@@ -70,8 +70,8 @@ CHECKS["C17"] = {
     "level": "model_checking",
     "design_ref": "DESIGN.md section 4 C17",
     "technique": "TLA+ transcription of the documented equality (ValGen.ValEq) evaluated by TLC on enumerated value trees and their one-edit neighbours; spec->code: the real Equal must return TLC's verdict on values built in different layouts",
-    "text": "TLC enumerates value trees to depth 2 (quick) / 3 (thorough) and, for each, the neighbours that differ in exactly one bit / element / trailing word / extra null or zero field / list-kind upgrade, computes the three-valued verdict (yes / no / either where the documentation is silent: bit list vs struct list) and checks reflexivity and symmetry of ValEq itself. The driver builds both sides in 4 arena x build-order layouts and requires Equal(a,b) = Equal(b,a) = verdict, Equal(a,a), Equal(a, deep copy), Equal(a, re-encoding).",
-    "note": "Capabilities are compared through shared instrumented clients (same table index = same capability). Values come from the builder, so C17 assumes C04/C05.",
+    "text": "TLC enumerates value trees to depth 2 (quick) / 3 (thorough) and, for each, the neighbours that differ in exactly one bit / element / trailing word / extra null or zero field / list-kind upgrade, computes the three-valued verdict (yes / no / either where the documentation is silent: bit list vs struct list) and checks reflexivity and symmetry of ValEq itself. The driver builds both sides in 4 arena x build-order layouts and requires Equal(a,b) = Equal(b,a) = verdict, Equal(a,a), Equal(a, deep copy), Equal(a, re-encoding); a spec-generated layout of a whose padding bits and bytes carry garbage (as a foreign encoder may write) must compare equal to a and give the same verdict against b.",
+    "note": "Capabilities are compared through shared instrumented clients (same table index = same capability). Values come from the builder (C04/C05) and from ValGen.DirtyCanon layouts.",
 }
 CHECKS["C18"] = {
     "engine": "tlc",
@@ -105,23 +105,23 @@ CHECKS["C10"] = {
     "level": "model_checking",
     "design_ref": "DESIGN.md section 4 C10, Appendix C, Appendix I",
     "technique": "implementation-shaped TLA+ model of capability.go model-checked over all interleavings (design); property-level TLA+ spec ClientRefAbs used as trace specification: real multi-threaded executions under a gate scheduler at verif yield points are validated by TLC (linearisation points inferred)",
-    "text": "ClientRef (one action per critical section) is checked by TLC for 2-3 threads: no deadlock, no double close, no Shutdown while referenced or during a call, exact counts at quiescence; the variant with the unrepaired reference transfer must violate NoShutWhileReferenced (control). Binding: ~230 (quick) two-thread programs over AddRef/Release/Call/IsValid/WeakRef/WeakClient.AddRef/Fulfill are run on real Clients with instrumented hooks; schedules are enumerated depth-first at 16 yield points (before every lock acquisition / channel wait in capability.go, inside the hook's Send, at call boundaries); ~9k execution traces per run are accepted only if TLC finds a linearisation satisfying ClientRefAbs (Shutdown at most once, only with no live reference denoting the hook after following resolutions and no call inside, calls delivered to the denoted hook, results, obligations at quiescence).",
-    "note": "Schedules are bounded (<= 40/300 per program). A worker that does not reach a yield point within 3 ms is treated as blocked (affects exploration only). The documented guarantee that Fulfill returns after the promise hook's Shutdown is not part of the property and is checked at quiescence only.",
+    "text": "ClientRef (one action per critical section) is checked by TLC for 2-3 threads: no deadlock, no double close, no Shutdown while referenced or during a call, exact counts at quiescence; the variant with the unrepaired reference transfer must violate NoShutWhileReferenced (control). Binding: ~240 (quick) programs of two and three threads (hand-picked race programs explored with a 1500 / 20000 schedule budget, among them the last Release of a promised client waiting for a call while another thread fulfils the promise, and two references to the promise used by different threads) over AddRef/Release/Call/IsValid/WeakRef/WeakClient.AddRef/Fulfill are run on real Clients with instrumented hooks; schedules are enumerated depth-first at 16 yield points (before every lock acquisition / channel wait in capability.go, inside the hook's Send, at call boundaries); ~9k execution traces per run are accepted only if TLC finds a linearisation satisfying ClientRefAbs (Shutdown at most once, only with no live reference denoting the hook after following resolutions and no call inside, calls delivered to the denoted hook, results, obligations at quiescence).",
+    "note": "Schedules are bounded (<= 40/300 per generated program, 1500/20000 per hand-picked race program). A worker that does not reach a yield point within 3 ms is treated as blocked (affects exploration only). The documented guarantee that Fulfill returns after the promise hook's Shutdown is not part of the property and is checked at quiescence only.",
 }
 CHECKS["C11"] = {
     "engine": "tlc",
     "level": "model_checking",
     "design_ref": "DESIGN.md section 4 C11, Appendix M",
     "technique": "implementation-shaped TLA+ model of answer.go + proxy hook (design, with unrepaired variants as controls); property-level trace spec PromiseAbs validated by TLC on real executions under the gate scheduler; deadlocks reported from goroutine dumps with a frame signature",
-    "text": "Programs (a resolver thread: Fulfill/Reject/Join chains; caller threads: pipelined calls on two paths, repeated Future.Client, calls through pipelined clients, Struct/Done/ReleaseClients) run on real Promises with an instrumented pipeline caller and result capability; schedules enumerated at the yield points of answer.go and capability.go. TLC accepts a trace only if every call is delivered exactly once to the destination determined at its linearisation point (pipeline caller of the chain's last promise before resolution, else the capability at that path, else failure), resolution waits for calls handed to the pipeline caller, waiters return only after resolution. An execution in which no worker can move for 1 s is reported with the library frames it is stuck in.",
-    "note": "Known finding D17 (deadlock between resolve and a call through a pipelined client) is listed in known_findings.json by its frame signature. Borrowed clients used after ReleaseClients may fail (accepted).",
+    "text": "Programs (a resolver thread: Fulfill/Reject/Join, chains of three promises joined leaf first and root first; caller threads: pipelined calls on two paths, repeated Future.Client, calls through pipelined clients, Struct/Done/ReleaseClients) run on real Promises with an instrumented pipeline caller and result capability; schedules enumerated at the yield points of answer.go and capability.go. TLC accepts a trace only if every call is delivered exactly once to the destination determined at its linearisation point (pipeline caller of the chain's last promise before resolution, else the capability at that path, else failure), resolution waits for calls handed to the pipeline caller, waiters return only after resolution, and a pipelined client may fail as released only after ReleaseClients was called on every promise sharing its outcome. An execution in which no worker can move for 1 s is reported with the library frames it is stuck in.",
+    "note": "Known finding D17 (deadlock between resolve and a call through a pipelined client) is listed in known_findings.json by its frame signature. Borrowed clients may fail once every promise of their join chain has been asked to release them (never earlier).",
 }
 CHECKS["C12"] = {
     "engine": "tlc",
     "level": "model_checking",
     "design_ref": "DESIGN.md section 4 C12, Appendix J",
     "technique": "implementation-shaped TLA+ model of server.go (design); TLC-generated environment scripts replayed on a real server.Server; event log validated by TLC against the trace specification ServerTrace",
-    "text": "Server.tla (start gate, slot semaphore, full/drain, shutdown) is model-checked for 3-4 calls x 1-2 slots. ServerEnv enumerates scripts (3 concurrent invocations, ack / return ok|err / cancel, pipelined calls on acknowledged answers, Shutdown anywhere); 1000 (quick) sampled scripts run against the real server with MaxConcurrentCalls 1 and 2; TLC checks each event log: one started-and-unacknowledged call at a time, cap, start order consistent with Send returns, exactly one result per call equal to the implementation's, pipelined calls delivered in order only after a successful return, cancellation visible after Shutdown, user shutdown once after running calls returned, nothing starts afterwards.",
+    "text": "Server.tla (start gate, slot semaphore, full/drain, shutdown) is model-checked for 3-4 calls x 1-2 slots. ServerEnv enumerates scripts (3 concurrent invocations, ack / return ok|err / cancel, pipelined calls on acknowledged answers, Shutdown anywhere); 1000 (quick) sampled scripts plus every script (<= 250 quick) in which a caller waiting for a slot or at the gate is cancelled while later callers wait behind it, run against the real server with MaxConcurrentCalls 1 and 2; a call that is never delivered shows as an execution that does not wind down; TLC checks each event log: one started-and-unacknowledged call at a time, cap, start order consistent with Send returns, exactly one result per call equal to the implementation's, pipelined calls delivered in order only after a successful return, cancellation visible after Shutdown, user shutdown once after running calls returned, nothing starts afterwards.",
     "note": "No hook needed (the implementation, callers, result capability and Shutdowner are harness code). Interleavings depend on timing jitter (seeded sleeps), not on a scheduler.",
 }
 
@@ -129,8 +129,8 @@ CHECKS["C06"] = {
     "engine": "tlc",
     "level": "model_checking",
     "design_ref": "DESIGN.md section 0.2 / 4 C06, Appendix D",
-    "technique": "TLC-generated peer/application scripts (RpcEnv) replayed against a real Conn over an in-memory transport played by the harness; the complete wire + application event log validated by TLC against the trace specification RpcTrace",
-    "text": "RpcTrace derives everything from the wire history: each received Bootstrap/Call opens an answer that gets exactly one Return with its own id and the result (or exception) the method body produced; method bodies of one capability start in wire order of the calls addressed to it (direct, pipelined before/after the answer returned); a question id chosen by the connection is not reused before its Finish was sent (cancelled questions stay in use until their Return); each local call resolves once with the peer's Return. 1250 (quick) scripts sampled from ~170k maximal behaviours of RpcEnv, one fresh Conn each.",
+    "technique": "TLC-generated peer/application scripts (RpcEnv; RpcEmbargo: a TLA+ model of the Level 1 embargo in both roles, model-checked with a no-embargo control) replayed against a real Conn over an in-memory transport played by the harness; the complete wire + application event log validated by TLC against the trace specification RpcTrace",
+    "text": "RpcTrace derives everything from the wire history: each received Bootstrap/Call opens an answer that gets exactly one Return with its own id and the result (or exception) the method body produced; method bodies of one capability start in wire order of the calls addressed to it (direct, pipelined before/after the answer returned); a question id chosen by the connection is not reused before its Finish was sent (cancelled questions stay in use until their Return); each local call resolves once with the peer's Return. Ordering across promise resolution: every maximal behaviour of RpcEmbargo (caller role: local calls pipelined on a question that resolves to a capability of this vat; the peer reflects them and echoes the Disembargo; callee role: the method returns the capability it was given, pipelined calls are queued / forwarded, the peer asks for the loop-back) is replayed; TLC requires calls made on one pipeline to reach the implementation in the order they were made (calls blocked together under the embargo are unordered), none under embargo before the echo, Disembargo(senderLoopback) only while the promised answer is addressable, forwarded calls in wire order and at most once, the echo behind every earlier forwarded call with the right id and import, forwarded calls answered with the peer's result. 1500 (quick) scripts sampled from ~250k maximal behaviours of RpcEnv plus all of RpcEmbargo, one fresh Conn each; every rejected execution is reported by exactly one of C06 / C07.",
     "note": "The scripted peer is kept well formed (actions depending on skipped actions are skipped). Windows inside a handler (e.g. between popping a question and sending its Finish) are not schedulable: no yield points in package rpc.",
 }
 CHECKS["C07"] = {
@@ -138,24 +138,24 @@ CHECKS["C07"] = {
     "level": "model_checking",
     "design_ref": "DESIGN.md section 0.2 / 4 C07, Appendix D",
     "technique": "same scripts, driver and trace specification as C06; the reference-counting rules of RpcTrace decide: wire counts derived from descriptors sent, Release and Finish(releaseResultCaps); holders of each instrumented capability; Shutdown only when nothing holds it and by the next quiescent point; Release of imports with the exact count once no local reference is live; everything shut down exactly once after Close",
-    "text": "Local capabilities are server.Server instances with a Shutdowner that logs; the application returns fresh capabilities in results (the connection then owns the only reference), so the instant at which each must be shut down is determined by the wire history: Finish of the answer that returned it, Release messages, releaseResultCaps (before or after the Return), Close. Imports arrive as call parameters and as the local Bootstrap result; their Release must carry the number of descriptors received.",
-    "note": "Exports created for capabilities the connection sends in call parameters (releaseParamCaps) are not exercised yet: local calls carry no capabilities.",
+    "text": "Local capabilities are server.Server instances with a Shutdowner that logs; the application returns fresh capabilities in results (the connection then owns the only reference), so the instant at which each must be shut down is determined by the wire history: Finish of the answer that returned it, Release messages, releaseResultCaps (before or after the Return), Close. Imports arrive as call parameters and as the local Bootstrap result; their Release must carry the number of descriptors received. Local calls carry capabilities of this vat in their parameters: the export gains a wire reference per descriptor and loses it by Release or by a Return with releaseParamCaps. Method bodies cancelled by Close may complete with a new capability (a-oncancel), which must be released before Close returns.",
+    "note": "One capability per call / result (several descriptors of one export in one message are not generated).",
 }
 CHECKS["C08"] = {
     "engine": "tlc",
     "level": "model_checking",
     "design_ref": "DESIGN.md section 0.2 / 4 C08",
-    "technique": "TLC-enumerated scripts (8 well-formed prefixes x 35 hostile message kinds x probe x Close once/twice) replayed against a real Conn; process survival + RpcEndState trace specification (allowed reaction, no send after close, local calls resolve, Close returns, Done closes, locks free, capabilities released)",
-    "text": "Hostile kinds cover the id spaces and unions of rpc.capnp: unknown / reused ids in Call, Bootstrap, Finish (twice), Release (unknown, too many), Return, Disembargo; capability descriptors naming no export or using receiverAnswer / thirdPartyHosted / unknown members; unknown members of Message, MessageTarget, Return, Disembargo.context, PromisedAnswer.Op; sendResultsTo.yourself; null params / target; Resolve / Provide / Accept / Join; Abort; empty message. A panic in a library goroutine kills the driver and is attributed to the running script.",
+    "technique": "TLC-enumerated scripts (8 well-formed prefixes x 44 hostile message kinds x probe x Close once/twice) replayed against a real Conn; process survival + RpcEndState trace specification (allowed reaction, no send after close, local calls resolve, Close returns, Done closes, locks free, capabilities released)",
+    "text": "Hostile kinds cover the id spaces and unions of rpc.capnp: unknown / reused ids in Call, Bootstrap, Finish (twice), Release (unknown, too many), Return, Disembargo; capability descriptors naming no export or using receiverAnswer / thirdPartyHosted / unknown members; unknown members of Message, MessageTarget, Return, Disembargo.context, PromisedAnswer.Op; sendResultsTo.yourself; null params / target; Resolve / Provide / Accept / Join; Abort; empty message; a call addressed to its own answer; capability tables whose first entry is a good new import and whose second is bad (calls and Returns); undeliverable calls that carry a capability; Returns for unknown questions with capabilities. A panic in a library goroutine kills the driver and is attributed to the running script.",
     "note": "Byte-level corruption of a stream transport is not part of this check (C01 covers hostile bytes at the message level).",
 }
 CHECKS["C09"] = {
     "engine": "tlc",
     "level": "fault_enumeration",
     "design_ref": "DESIGN.md section 0.2 / 4 C09",
-    "technique": "TLC-enumerated fault plans (4 base scenarios x {NewMessage, send, receive} failure x operation index 1..7 x Close once/twice; Close injected at every step) replayed against a real Conn with a fault-injecting transport; RpcEndState trace specification + verif view of the connection mutex / sender lock",
+    "technique": "TLC-enumerated fault plans (7 base scenarios x {NewMessage, send, receive} failure x operation index 1..7 x Close once/twice; Close injected at every step) replayed against a real Conn with a fault-injecting transport; RpcEndState trace specification + verif view of the connection mutex / sender lock",
     "text": "For every plan: every local call resolves (not by the harness' own timeout), Close returns also the second time, Done closes, nothing is sent after the transport was closed, every capability is shut down, and afterwards mu.TryLock succeeds and the sender lock is free. A run that does not finish within 8 s is reported with a goroutine dump.",
-    "note": "Message-level transport only; torn writes of the stream transport (partial write latch) are not exercised by this check.",
+    "note": "Base scenarios include an embargo in force (both roles) and method bodies that complete with a capability when cancelled; torn writes of the stream transport are covered by the StreamTornGen / StreamTornTrace pair of this check.",
 }
 
 CHECKS["C15"] = {
@@ -163,23 +163,23 @@ CHECKS["C15"] = {
     "level": "model_checking",
     "design_ref": "DESIGN.md section 0 (C15/C19/C20), section 4 C15",
     "technique": "TLA+ layout semantics (Layout.tla: SetField/GetField of a field descriptor on the bytes of a struct) as a trace specification; TLC generates the schemas (SchemaGen.tla: every field kind x default x union/group membership x alignment situation, layout consistency checked as an invariant); capnpc-go built from the working tree generates code for them and for the stored requests, the code is compiled and every generated accessor is called through reflection; TLC judges every recorded before/after byte image",
-    "text": "For 3990 TLC-generated struct layouts (quick: every 8th, rotating with the seed) plus the repository's stored requests (aircraft, rpc, group, util; scopes generated only): the generator succeeds, its output is byte-identical across 4-13 runs and compiles; for every struct and every field (descending into groups) the setter is called with boundary values on all-zero and all-one backgrounds with marker pointers in every slot and the after-image must equal SetField(before) exactly; getters must return GetField on patterned bytes; New/Set/Has of pointer fields may change only their slot and the discriminant; getters and Has of an inactive union member must refuse; Which reads the declared discriminant; allocated sizes equal the node's.",
-    "note": "Schemas come from SchemaGen (three fields per struct: filler, tested field, follower) and the stored requests; interface (capability) typed fields are generated and compiled but their setters are not called. Trusted: TLC, Layout.tla as a reading of the schema language's field descriptors, harness/reqgen (builds the CodeGeneratorRequest from TLC's layouts).",
+    "text": "For 7035 TLC-generated struct layouts (quick: every 8th, rotating with the seed) plus the repository's stored requests (aircraft, rpc, group, util; scopes generated only): the generator succeeds, its output is byte-identical across 4-13 runs and compiles; for every struct and every field (descending into groups) the setter is called with boundary values on all-zero and all-one backgrounds with marker pointers in every slot and the after-image must equal SetField(before) exactly; getters must return GetField on patterned bytes; New/Set/Has of pointer fields may change only their slot and the discriminant; getters and Has of an inactive union member must refuse; Which reads the declared discriminant; allocated sizes equal the node's; a struct / list field with a null slot reads as that field's own default (also when another member of the union shares the slot with a different default).",
+    "note": "Schemas come from SchemaGen (filler, tested field of every kind with zero / non-zero default - struct and list defaults included -, plain / union / group / group-in-union / two union members sharing one slot, groups with up to four fields, follower) and the stored requests; interface (capability) typed fields are generated and compiled but their setters are not called. Trusted: TLC, Layout.tla as a reading of the schema language's field descriptors, harness/reqgen (builds the CodeGeneratorRequest from TLC's layouts).",
 }
 CHECKS["C19"] = {
     "engine": "tlc",
     "level": "model_checking",
     "design_ref": "DESIGN.md section 0 (C15/C19/C20), section 4 C19",
     "technique": "same TLA+ layout specification and TLC-generated schemas as C15; pogs.Insert / pogs.Extract are driven with Go mirror types built from the schema nodes (reflect.StructOf) and every recorded byte image / extracted value is judged by TLC against SetField/GetField; round trips and agreement with the generated getters reported through the same trace",
-    "text": "For every struct type of the generated packages: Insert of each primitive field with boundary values (all other active fields at their defaults, garbage in the inactive members of the selected unions) must produce exactly SetField plus the discriminants on the path; Extract from all-one and patterned raw bytes must return GetField, the right Which values, and leave inactive members zero; one fully populated value per top-level union member is inserted, extracted and compared (DeepEqual), and the generated getters must see the inserted values.",
-    "note": "Go mirror types use default field naming; capnp field tags (rename, omit, embedding) are only covered by the repository's tests. Nested struct types deeper than 2 are left out of the mirror types.",
+    "text": "For every struct type of the generated packages: Insert of each primitive field with boundary values (all other active fields at their defaults, garbage in the inactive members of the selected unions) must produce exactly SetField plus the discriminants on the path; Extract from all-one and patterned raw bytes must return GetField, the right Which values, and leave inactive members zero; one fully populated value per top-level union member is inserted, extracted and compared (DeepEqual), and the generated getters must see the inserted values; extraction from a null struct shows every field's default; a null struct / list slot extracts as the field's default (pointer, and struct-by-value mirror types).",
+    "note": "Mirror type variants: default naming, fields embedded three levels deep, renamed with capnp tags, nested structs by value. Nested struct types deeper than 2 are left out of the mirror types.",
 }
 CHECKS["C20"] = {
     "engine": "tlc",
     "level": "model_checking",
     "design_ref": "DESIGN.md section 0 (C15/C19/C20), section 4 C20",
     "technique": "TLA+ specification of text-format string literals (StrQuoteCore: reader Unquote; design check Unquote(SpecQuote(s)) = s) + TLC-generated byte strings over class representatives; code->spec trace validation (TextTrace): every literal the real code produced is well formed and denotes its value, every field token equals the generated accessor's value, the text of a value is the same after any number of prior Encodes",
-    "text": "Every byte string of <= 3 (quick) / 4 (thorough) bytes over 10 class representatives plus every single byte, through strquote.Append and as Text, List(Text) element and Data of rendered structs; struct samples with boundary numbers, enums, booleans, unions; a long-lived Encoder re-renders a probe set after 1, 10, 1000 and every 1/16 of 200000 (quick) / 2000000 (thorough) prior Encodes.",
+    "text": "Every byte string of <= 3 (quick) / 4 (thorough) bytes over 10 class representatives plus every single byte, through strquote.Append and as Text, List(Text) element and Data of rendered structs; struct samples with boundary numbers, enums, booleans, unions; a long-lived Encoder re-renders a probe set after 1, 10, 1000 and every 1/16 of 200000 (quick) / 2000000 (thorough) prior Encodes; every struct type of the TLC-generated schemas (groups with several fields followed by parent fields, unions, defaults) is rendered with each field set to boundary values, on a fresh encoder and on one encoder shared by all types, every shown field compared with the generated getter and every expected field required to be present.",
     "note": "The harness tokenizer of the text format is trusted to split fields; literals themselves are judged by TLC.",
 }
 
